@@ -37,10 +37,10 @@ def RULE(tier):
         "chunk-size-tolerance {1.25, 1.0}; 2-d shapes " + ("(2,3),(3,4),(4,6)" if q else "(2,3),(3,4),(4,6),(6,6)") + " and 3-d (2,3,4) x every pair/triple of per-axis "
         "specs from {1,2,-1,'auto','16B', first/last composition} (3-d: {2,-1,'auto','16B'}) x the same grids x EVERY previous chunking. Oracle: tuple of tuples of "
         "ints, each axis positive (or the single (0,) for an empty axis) and summing to the shape, explicit axes as documented, auto blocks "
-        "within the byte limit, and the call returns. rechunk: EVERY (source, target) chunking pair of 1-d n <= " + ("7 (n = 7: default setting only)" if q else "8") + ", 2-d "
-        + ("(2,3),(3,2),(3,4),(4,4) ((4,4): 3 of the 5 settings)" if q else "(2,3),(3,2),(3,4),(4,4),(2,6),(3,5)") + " and 3-d (2,2,3) x settings {default, method='tasks', threshold=1 with block_size_limit in "
+        "within the byte limit, and the call returns. rechunk: EVERY (source, target) chunking pair of 1-d n <= " + ("7 (n = 7: default setting only)" if q else "9 (n = 9: default and method=tasks only)") + ", 2-d "
+        + ("(2,3),(3,2),(3,4),(4,4) ((4,4): 3 of the 5 settings)" if q else "(2,3),(3,2),(3,4),(4,4),(2,6),(3,5),(4,5) ((4,5): 3 of the 5 settings)") + " and 3-d (2,2,3) x settings {default, method='tasks', threshold=1 with block_size_limit in "
         "{1,16,32} bytes (forces multi-stage plans), balance=True}, sources/targets with zero-length chunks for n <= 4, spec targets "
-        "(int, -1, dict, 'auto' with a limit), unknown-size (NaN) source axes; plan_rechunk directly over the same pairs x itemsize {1,8} x "
+        "(int, -1, dict, 'auto' with a limit), unknown-size (NaN) source axes; plan_rechunk directly over every chunking pair of (2,3),(3,4),(2,2,3),(4,4)" + ("" if q else ",(3,5)") + " x itemsize {1,8} x "
         "threshold {1,2,4} x block_size_limit {1,16,64,None}: every stage sums to the shape and the last is the target. Oracle: result "
         "chunks == requested, every computed block has its declared shape, assembled values == source. non-trivial = source != target "
         "(rechunk) / an 'auto' axis (normalize)."
@@ -66,14 +66,14 @@ def shards(tier):
             out.append(("norm2", shp, p, parts))
     for p in range(4):
         out.append(("norm2", (2, 3, 4), p, 4))
-    for n in range(0, (7 if q else 8) + 1):
-        parts = 1 if n <= 4 else (2 if n == 5 else (8 if n == 6 else 16))
+    for n in range(0, (7 if q else 9) + 1):
+        parts = 1 if n <= 4 else (2 if n == 5 else (8 if n == 6 else (16 if n <= 8 else 32)))
         for p in range(parts):
             out.append(("re1", n, p, parts))
     for n in range(1, 5):
         out.append(("re1z", n))
-    for shp in [(2, 3), (3, 2), (3, 4), (2, 2, 3), (4, 4)] + ([] if q else [(2, 6), (3, 5)]):
-        parts = {(2, 3): 1, (3, 2): 1, (3, 4): 8, (2, 2, 3): 4, (4, 4): 32, (2, 6): 32, (3, 5): 32}[shp]
+    for shp in [(2, 3), (3, 2), (3, 4), (2, 2, 3), (4, 4)] + ([] if q else [(2, 6), (3, 5), (4, 5)]):
+        parts = {(2, 3): 1, (3, 2): 1, (3, 4): 8, (2, 2, 3): 4, (4, 4): 32, (2, 6): 32, (3, 5): 32, (4, 5): 64}[shp]
         for p in range(parts):
             out.append(("re2", shp, p, parts))
     for shp in [(2, 3), (3, 4), (2, 2, 3), (4, 4)] + ([] if q else [(3, 5)]):
@@ -156,7 +156,7 @@ def cases_of(shard, tier):
         j = 0
         for src in comps:
             for tgt in comps:
-                for setting in (("default",), ("tasks",), ("thr1", 1), ("balance",)) if (n <= 6 or tier == "thorough") else (("default",),):
+                for setting in (("default",), ("tasks",), ("thr1", 1), ("balance",)) if n <= (6 if tier == "quick" else 8) else ((("default",),) if tier == "quick" else (("default",), ("tasks",))):
                     j += 1
                     if j % nparts == part:
                         yield ("re", (n,), (src,), (tgt,), setting)
@@ -175,7 +175,7 @@ def cases_of(shard, tier):
         j = 0
         for src in chs:
             for tgt in chs:
-                full = tier == "thorough" or shp != (4, 4)
+                full = shp != (4, 5) and (tier == "thorough" or shp != (4, 4))
                 for setting in (("default",), ("thr1", 1), ("thr1", 16), ("thr1", 32), ("balance",)) if full else (("default",), ("thr1", 1), ("thr1", 32)):
                     j += 1
                     if j % nparts == part:
